@@ -1234,4 +1234,172 @@ theorem numberWithMonthPreFix_both (fixed : Bool) (R : DateTime) (hv : R.date.va
       replaceYear_ymd _ m d 0 _ vn, replaceYear_ymd _ m d 0 _ vp, Option.bind_some]
     exact ⟨trivial, trivial⟩
 
+/-- the month and day a pure year delta lands on: unchanged, except 29 February moved into a non-leap year
+(`datedelta`: forward → 1 March, backward → 28 February) -/
+def yearStepMD (x : Date) (k : Int) : Nat × Nat :=
+  if k ≠ 0 ∧ x.m = 2 ∧ x.d = 29 ∧ (!isLeap ((x.y : Int) + k).toNat) = true then (if k > 0 then (3, 1) else (2, 28))
+  else (x.m, x.d)
+
+theorem datedeltaAdd_years_full (x : Date) (hv : x.valid = true) (k : Int) (r : Date) (h : datedeltaAdd x k 0 0 = some r) :
+    r.valid = true ∧ (r.y : Int) = x.y + k ∧ (r.m, r.d) = yearStepMD x k := by
+  have hy := datedeltaAdd_years x hv k r h
+  refine ⟨hy.1, hy.2, ?_⟩
+  unfold datedeltaAdd at h
+  simp only [ne_eq, not_true_eq_false, if_false, if_true] at h
+  unfold yearStepMD
+  generalize (if ¬k = 0 ∧ x.m = 2 ∧ x.d = 29 ∧ (!isLeap ((x.y : Int) + k).toNat) = true then
+      (if k > 0 then ((3 : Nat), (1 : Nat)) else (2, 28)) else (x.m, x.d)) = md at h ⊢
+  by_cases hr : 1 ≤ (x.y : Int) + k ∧ (x.y : Int) + k ≤ 9999
+  · rw [if_pos hr] at h
+    by_cases hvr : (⟨((x.y : Int) + k).toNat, md.1, md.2⟩ : Date).valid = true
+    · rw [if_pos hvr] at h
+      simp only [Option.some.injEq] at h
+      subst h
+      rfl
+    · rw [if_neg hvr] at h; cases h
+  · rw [if_neg hr] at h; cases h
+
+/-- the day a pure month delta lands on, under the guard of `datedeltaAdd_months`: the same day, clamped to the end of
+the target month (only a backward delta can clamp: forward the guard says the day exists) -/
+theorem monthStep_day (x : Date) (hv : x.valid = true) (k : Int)
+    (g : k ≤ 0 ∨ x.d ≤ daysInMonth (shiftMonth x.y x.m k).1.toNat (shiftMonth x.y x.m k).2)
+    (hr : 1 ≤ (shiftMonth x.y x.m k).1 ∧ (shiftMonth x.y x.m k).1 ≤ 9999) :
+    (monthStep x k).2.2 = min x.d (daysInMonth (shiftMonth x.y x.m k).1.toNat (shiftMonth x.y x.m k).2) := by
+  have h := (valid_iff x).1 hv
+  unfold monthStep
+  unfold shiftMonth at g hr ⊢
+  simp only at g hr ⊢
+  by_cases hk : k = 0
+  · subst hk
+    simp only [ne_eq, not_true_eq_false, if_false, Int.add_zero]
+    have e1 : ((x.y : Int) * 12 + ((x.m : Int) - 1)) / 12 = x.y := by omega
+    have e2 : (((x.y : Int) * 12 + ((x.m : Int) - 1)) % 12).toNat + 1 = x.m := by omega
+    rw [e1, e2]; simp only [Int.toNat_natCast]; omega
+  · simp only [ne_eq, hk, not_false_eq_true, if_true]
+    rw [if_pos hr]
+    by_cases hd : x.d > daysInMonth (((x.y : Int) * 12 + ((x.m : Int) - 1) + k) / 12).toNat ((((x.y : Int) * 12 + ((x.m : Int) - 1) + k) % 12).toNat + 1)
+    · rw [if_pos hd]
+      by_cases hk0 : k > 0
+      · exfalso; rcases g with g | g <;> omega
+      · rw [if_neg hk0]; simp only; omega
+    · rw [if_neg hd]; simp only; omega
+
+theorem datedeltaAdd_months_full (x : Date) (hv : x.valid = true) (k : Int) (r : Date) (h : datedeltaAdd x 0 k 0 = some r)
+    (g : k ≤ 0 ∨ x.d ≤ daysInMonth (shiftMonth x.y x.m k).1.toNat (shiftMonth x.y x.m k).2) :
+    r.valid = true ∧ (r.y : Int) = (shiftMonth x.y x.m k).1 ∧ r.m = (shiftMonth x.y x.m k).2 ∧
+    r.d = min x.d (daysInMonth (shiftMonth x.y x.m k).1.toNat (shiftMonth x.y x.m k).2) := by
+  have hm := datedeltaAdd_months x hv k r h g
+  refine ⟨hm.1, hm.2.1, hm.2.2, ?_⟩
+  have hval := (valid_iff r).1 hm.1
+  have hr : 1 ≤ (shiftMonth x.y x.m k).1 ∧ (shiftMonth x.y x.m k).1 ≤ 9999 := by
+    rw [← hm.2.1]; omega
+  rw [datedeltaAdd_months_eq] at h
+  by_cases hr' : 1 ≤ (monthStep x k).1 ∧ (monthStep x k).1 ≤ 9999
+  · rw [if_pos hr'] at h
+    by_cases hvr : (⟨(monthStep x k).1.toNat, (monthStep x k).2.1, (monthStep x k).2.2⟩ : Date).valid = true
+    · rw [if_pos hvr] at h
+      simp only [Option.some.injEq] at h
+      subst h
+      exact monthStep_day x hv k g hr
+    · rw [if_neg hvr] at h; cases h
+  · rw [if_neg hr'] at h; cases h
+theorem valid_year_change (x : Date) (hv : x.valid = true) (Y : Nat) (h1 : 1 ≤ Y) (h2 : Y ≤ 9999)
+    (h : ¬ (x.m = 2 ∧ x.d = 29) ∨ isLeap Y = true) : (⟨Y, x.m, x.d⟩ : Date).valid = true := by
+  have hx := (valid_iff x).1 hv
+  rw [valid_iff]
+  refine ⟨h1, h2, hx.2.2.1, hx.2.2.2.1, hx.2.2.2.2.1, ?_⟩
+  have hd := hx.2.2.2.2.2
+  simp only at hd ⊢
+  unfold daysInMonth at hd ⊢
+  by_cases hm : x.m = 2
+  · rw [hm] at hd ⊢
+    simp only at hd ⊢
+    rcases h with h | h
+    · have : x.d ≠ 29 := fun e => h ⟨hm, e⟩
+      split at hd <;> split <;> omega
+    · rw [h]; simp only [if_true]; split at hd <;> omega
+  · split <;> simp_all
+
+theorem datedeltaAdd_years_isSome (x : Date) (hv : x.valid = true) (k : Int)
+    (h1 : 1 ≤ (x.y : Int) + k) (h2 : (x.y : Int) + k ≤ 9999) : ∃ r, datedeltaAdd x k 0 0 = some r := by
+  have hy : 1 ≤ ((x.y : Int) + k).toNat ∧ ((x.y : Int) + k).toNat ≤ 9999 := by omega
+  unfold datedeltaAdd
+  simp only [ne_eq, not_true_eq_false, if_false, if_true]
+  rw [if_pos ⟨h1, h2⟩]
+  by_cases hc : ¬k = 0 ∧ x.m = 2 ∧ x.d = 29 ∧ (!isLeap ((x.y : Int) + k).toNat) = true
+  · rw [if_pos hc]
+    by_cases hk : k > 0
+    · rw [if_pos hk]
+      have v : (⟨((x.y : Int) + k).toNat, 3, 1⟩ : Date).valid = true := by
+        simp [Date.valid, daysInMonth, hy.1, hy.2]
+      simp only [v, if_true]; exact ⟨_, rfl⟩
+    · rw [if_neg hk]
+      have v : (⟨((x.y : Int) + k).toNat, 2, 28⟩ : Date).valid = true := by
+        simp [Date.valid, daysInMonth, hy.1, hy.2]; split <;> omega
+      simp only [v, if_true]; exact ⟨_, rfl⟩
+  · rw [if_neg hc]
+    have v : (⟨((x.y : Int) + k).toNat, x.m, x.d⟩ : Date).valid = true := by
+      by_cases hk : k = 0
+      · subst hk
+        have : ((x.y : Int) + 0).toNat = x.y := by omega
+        rw [this]; cases x; exact hv
+      · apply valid_year_change x hv _ hy.1 hy.2
+        by_cases hf : x.m = 2 ∧ x.d = 29
+        · right
+          cases hl : isLeap ((x.y : Int) + k).toNat with
+          | true => rfl
+          | false => exact absurd ⟨hk, hf.1, hf.2, by simp [hl]⟩ hc
+        · left; exact hf
+    simp only [v, if_true]; exact ⟨_, rfl⟩
+
+/-- `generateDates_monthday` under the EXACT guard: the reference is at midnight OR the stated day is not the reference's
+own day of this year. -/
+theorem generateDates_monthday_exact (R : DateTime) (hv : R.date.valid = true) (m d : Nat) (he : everyYear m d)
+    (hy1 : 2 ≤ R.date.y) (hy2 : R.date.y ≤ 9998) (hs : R.secs = 0 ∨ (⟨R.date.y, m, d⟩ : Date).ord ≠ R.date.ord) :
+    ∃ Y : Nat, generateDates true R R.date.y m d = (⟨⟨Y + 1, m, d⟩, 0⟩, ⟨⟨Y, m, d⟩, 0⟩) ∧
+      (⟨Y, m, d⟩ : Date).valid = true ∧ (⟨Y + 1, m, d⟩ : Date).valid = true ∧
+      (⟨Y, m, d⟩ : Date).ord < R.date.ord ∧ R.date.ord ≤ (⟨Y + 1, m, d⟩ : Date).ord := by
+  have v0 := valid_everyYear R.date.y m d he (by omega) (by omega)
+  have vp := valid_everyYear (R.date.y - 1) m d he (by omega) (by omega)
+  have vn := valid_everyYear (R.date.y + 1) m d he (by omega) (by omega)
+  have b0 := ord_bounds _ v0
+  have bp := ord_bounds _ vp
+  have bn := ord_bounds _ vn
+  have bR := ord_bounds _ hv
+  have e1 : R.date.y - 1 + 1 = R.date.y := by omega
+  simp only [e1] at bp b0 bn
+  unfold generateDates
+  simp only [if_true, not_feb29_everyYear m d he, Bool.false_eq_true, if_false]
+  rw [isValidDate_of_valid ⟨R.date.y, m, d⟩ v0, int_pred _ (by omega), int_succ,
+    safeCreate_ymd _ m d v0, safeCreate_ymd _ m d vp, safeCreate_ymd _ m d vn]
+  simp only [Bool.and_true]
+  by_cases c : (⟨R.date.y, m, d⟩ : Date).ord < R.date.ord
+  · have l : (DateTime.lt ⟨⟨R.date.y, m, d⟩, 0⟩ R) = true := by rw [lt_iff]; left; exact c
+    have g : ¬ (DateTime.le R ⟨⟨R.date.y, m, d⟩, 0⟩ = true) := by rw [le_iff]; simp only; omega
+    rw [if_pos l, if_neg g]
+    exact ⟨R.date.y, rfl, v0, vn, c, by omega⟩
+  · have l : ¬ (DateTime.lt ⟨⟨R.date.y, m, d⟩, 0⟩ R) = true := by rw [lt_iff]; simp only; omega
+    have g : (DateTime.le R ⟨⟨R.date.y, m, d⟩, 0⟩ = true) := by rw [le_iff]; simp only; omega
+    rw [if_neg l, if_pos g]
+    refine ⟨R.date.y - 1, ?_, vp, by rw [e1]; exact v0, by omega, by rw [e1]; omega⟩
+    rw [e1]
+
+/-- … and the guard is exact: when the stated day IS the reference's own day and the reference has a time of day, the
+pair is `(next year's, this year's = the reference's date)`: the "past" candidate is not before the reference date. -/
+theorem generateDates_monthday_own_day (R : DateTime) (hv : R.date.valid = true) (he : everyYear R.date.m R.date.d)
+    (hy1 : 2 ≤ R.date.y) (hy2 : R.date.y ≤ 9998) (hs : 0 < R.secs) :
+    generateDates true R R.date.y R.date.m R.date.d = (⟨⟨R.date.y + 1, R.date.m, R.date.d⟩, 0⟩, ⟨R.date, 0⟩) := by
+  have v0 : (⟨R.date.y, R.date.m, R.date.d⟩ : Date).valid = true := by cases h : R.date; rw [h] at hv; exact hv
+  have vn := valid_everyYear (R.date.y + 1) R.date.m R.date.d he (by omega) (by omega)
+  have e0 : (⟨R.date.y, R.date.m, R.date.d⟩ : Date) = R.date := by cases R.date; rfl
+  unfold generateDates
+  simp only [if_true, not_feb29_everyYear R.date.m R.date.d he, Bool.false_eq_true, if_false]
+  rw [isValidDate_of_valid ⟨R.date.y, R.date.m, R.date.d⟩ v0, int_succ,
+    safeCreate_ymd _ R.date.m R.date.d v0, safeCreate_ymd _ R.date.m R.date.d vn]
+  simp only [Bool.and_true]
+  have l : (DateTime.lt ⟨⟨R.date.y, R.date.m, R.date.d⟩, 0⟩ R) = true := by
+    rw [lt_iff]; right; simp only [e0]; exact ⟨trivial, hs⟩
+  have g : ¬ (DateTime.le R ⟨⟨R.date.y, R.date.m, R.date.d⟩, 0⟩ = true) := by
+    rw [le_iff]; simp only [e0]; omega
+  rw [if_pos l, if_neg g, e0]
 end RTV.DateUtils
